@@ -16,23 +16,23 @@ import (
 // delivery is either automatic or released envelope by envelope by the
 // scheduler. All blocking is on channels so that synctest sees it as durable.
 type pipe struct {
-	mu      sync.Mutex
-	q       []*goat.Rpc
-	credits int  // envelopes released for delivery (manual mode)
-	auto    bool // deliver as soon as written
-	ser     bool // serialising transport (marshal+unmarshal) vs by reference
+	mu           sync.Mutex
+	q            []*goat.Rpc
+	credits      int  // envelopes released for delivery (manual mode)
+	auto         bool // deliver as soon as written
+	ser          bool // serialising transport (marshal+unmarshal) vs by reference
 	nFailedReads int
-	rerr    error
-	werr    error
-	werr1   bool // fail exactly the next write
-	stuck   bool
-	onWrite func() // one-shot: runs inside the next accepted Write, after the envelope is queued and logged
-	cap     int // > 0: a Write blocks while cap envelopes are queued unread (back-pressure, like an unbuffered channel or a full socket)
-	wake    chan struct{}
-	conn    int
-	wEv     string // event name for writes ("CW" or "SW"), "" = silent
-	rEv     string // event name for reads  ("SR" or "CR")
-	nW, nR  int
+	rerr         error
+	werr         error
+	werr1        bool // fail exactly the next write
+	stuck        bool
+	onWrite      func() // one-shot: runs inside the next accepted Write, after the envelope is queued and logged
+	cap          int    // > 0: a Write blocks while cap envelopes are queued unread (back-pressure, like an unbuffered channel or a full socket)
+	wake         chan struct{}
+	conn         int
+	wEv          string // event name for writes ("CW" or "SW"), "" = silent
+	rEv          string // event name for reads  ("SR" or "CR")
+	nW, nR       int
 }
 
 func newPipe(conn int, wEv, rEv string, auto, ser bool) *pipe {
